@@ -50,20 +50,19 @@
 (* probes, the zones `allowed` a command acting on that path may be seen   *)
 (* touching, and the named deviation class `cls` of the name.              *)
 (*                                                                         *)
-(* Property (C08): Confined.  The layouts have no confinement, so it fails *)
-(* for the tree as it is with Deviations = {} (WirePath_asis_strict.cfg:   *)
-(* the design admits escape - EXPECTED to fail); WirePath_asis.cfg names   *)
-(* the escaping classes of the tree under test (= the open entries of      *)
-(* known/C08.json) and must pass; WirePath_ideal.cfg switches the          *)
-(* candidate repair on (RejectSpecialParts) and must pass with no          *)
-(* deviation at all.                                                       *)
+(* Property (C08): Confined.  WirePath_asis.cfg is the tree under test:    *)
+(* _split refuses unsafe names (RejectSpecialParts = TRUE) and no          *)
+(* deviation is excused.  WirePath_asis_strict.cfg keeps the layouts as    *)
+(* they were before the repair (names joined unchecked) and is EXPECTED to *)
+(* fail: it documents what the refusal is needed for (the fixed entries of *)
+(* known/C08.json) and shows that Confined can tell the difference.        *)
 (***************************************************************************)
 EXTENDS Naturals, Sequences, FiniteSets
 
 CONSTANTS MaxLen,       \* names up to this length are enumerated
           ExtraNames,   \* further (longer) names to enumerate
-          RejectSpecialParts, \* TRUE: the candidate repair - _split refuses a name with
-                        \* an empty, '.', '..' or NUL-containing part (FALSE = the tree)
+          RejectSpecialParts, \* TRUE: _split refuses unsafe names (see Refused);
+                        \* FALSE: the layouts as they were before that repair
           Deviations    \* named classes of names that are allowed to escape
 
 Sym     == {"a", "DOT", "SEP", "U", "NUL"}
@@ -153,10 +152,19 @@ Groups == {"create", "plain"}
 Group(slot) == IF slot = "CREATE" THEN "create" ELSE "plain"
 EffG(g, nm) == Eff(IF g = "create" THEN "CREATE" ELSE "SELECT", nm)
 
-\* the candidate repair: refuse the name before any path is built
+\* the repair (_BaseLayout._split): the name is refused, before any path is
+\* built, if a part is '.' or '..' or contains NUL (or the os separator, which
+\* cannot occur here: the parts come from a split on it), or if the name is
+\* empty or starts with two delimiters (first part empty and no non-empty
+\* second part).  Other empty parts ('/a', 'a//b', 'a/') stay allowed: in the
+\* '++' layout they only add dots inside one ordinary component, in the 'fs'
+\* layout os.path.join ignores them.
 Refused(nm) ==
+  LET parts == Split(nm) IN
   /\ RejectSpecialParts
-  /\ \E i \in 1..Len(Split(nm)) : Kind(Split(nm)[i]) \in {"empty", "dot", "dotdot", "nul"}
+  /\ parts # <<>>
+  /\ \/ \E i \in 1..Len(parts) : Kind(parts[i]) \in {"dot", "dotdot", "nul"}
+     \/ parts[1] = <<>> /\ (Len(parts) = 1 \/ parts[2] = <<>>)
 
 \* Resolve(layout, name): where the kernel ends up for get_path(name, '/')
 Resolve(layout, nm) ==
